@@ -183,6 +183,12 @@ func (s *clientSocket) registerSubEvents() {
 		openFunc ManagerOpenFunc = func() {
 			s.stateMu.Lock()
 			defer s.stateMu.Unlock()
+			// The manager takes a copy of its handlers before it runs them, so this function can still
+			// be called after `Disconnect` removed it. Don't connect a socket the user has just disconnected
+			// (see `Disconnect`).
+			if !s.Active() {
+				return
+			}
 			// `Connect` may already have sent the CONNECT packet (the manager was open by then),
 			// and the server may even have answered it. A second CONNECT packet for the
 			// same namespace makes the server close the whole connection.
@@ -250,6 +256,13 @@ func (s *clientSocket) Connect() {
 }
 
 func (s *clientSocket) Disconnect() {
+	// Stop following the manager before looking at the state. Otherwise the manager could open in between:
+	// the state says that there is nothing to disconnect from, then the open event makes the socket send
+	// its CONNECT packet, and the server keeps a socket whose client is gone. With the events deregistered first,
+	// the open event either finds the socket inactive and does nothing, or it has sent the CONNECT packet
+	// by the time the state is read here (it holds `stateMu` while it runs), and the DISCONNECT packet follows it.
+	s.deregisterSubEvents()
+
 	if s.connectedOrConnectPending() {
 		s.debug.Log("Performing disconnect", s.namespace)
 		s.sendControlPacket(parser.PacketTypeDisconnect, nil)
